@@ -45,11 +45,12 @@ ASSUME = [
 ]
 
 
-def gen_cfg(maxslots, kindmode, cs, archg, by, emit=True, bug="none"):
+def gen_cfg(maxslots, kindmode, cs, archg, by, emit=True, bug="none", sub=(False, True)):
     st = lambda xs: "{" + ", ".join(str(x) for x in xs) + "}"
     return ("SPECIFICATION Spec\nCONSTANTS\n  Bug = \"%s\"\n  MaxSlots = %d\n  KindMode = \"%s\"\n  Cs = %s\n  ArchG = %s\n"
-            "  ByOpts = %s\n  Emit = %s\nINVARIANTS %s\nCHECK_DEADLOCK FALSE\n"
+            "  ByOpts = %s\n  SubOpts = %s\n  Emit = %s\nINVARIANTS %s\nCHECK_DEADLOCK FALSE\n"
             % (bug, maxslots, kindmode, st(cs), st(archg), st("TRUE" if b else "FALSE" for b in by),
+               st("TRUE" if b else "FALSE" for b in sub),
                "TRUE" if emit else "FALSE", INVARIANTS))
 
 
@@ -66,7 +67,7 @@ def selftest(ctx):
     # the driver's comparison must reject a damaged script file
     drv = go_build(ctx, "drivers/updatescripts")
     cases = ctx.path("st_cases.ndjson")
-    require_tlc_ok(tlc(ctx, SPECDIR, "MC_UpdateScripts.tla", "MC_st.cfg", cfg_text=gen_cfg(1, "core", [1, 2, 4], [2, 6], [True]),
+    require_tlc_ok(tlc(ctx, SPECDIR, "MC_UpdateScripts.tla", "MC_st.cfg", cfg_text=gen_cfg(1, "core", [1, 2, 4], [2, 6], [True], sub=[False]),
                        emit_to=cases, workers=4, timeout=900, files=[TXTAR_TLA], name="stgen"), "selftest generator")
     expect = {"comment": "script-text-changed", "swap": "entries-renamed-or-reordered", "other": "other-entry-changed",
               "revert": "updated-entry-not-holding-actual"}
@@ -88,19 +89,20 @@ def check(ctx):
         return selftest(ctx)
     quick = ctx.tier == "quick"
     allc = [1, 2, 3, 4, 5]
-    # (MaxSlots, KindMode, Cs, ArchG, ByOpts, driver stride, walks per worker); bounds fitted to measured counts, see REGISTRY.
+    B = [False, True]   # SubOpts: the script works in $WORK / after `cd sub` with every entry under sub/
+    # (MaxSlots, KindMode, Cs, ArchG, ByOpts, driver stride, walks per worker, SubOpts); bounds fitted to measured counts, see REGISTRY.
     # walks = 0: TLC explores every state; walks > 0: seeded random walks (-simulate, SIM_WORKERS workers) through a slot
     # domain with three goldens that is too large to enumerate; TLC checks and emits EVERY successor of every state on a
     # walk (measured: 6 walks x 3 steps x 135 core slots = 2,430 scripts; 32 walks x 3 x 255 full slots = 24,480)
     if quick:
-        runs = [(1, "full", allc, [1, 2, 6], [True, False], 1, 0),
-                (2, "core", [2, 4, 5], [2, 6], [True], 1, 0),
-                (3, "core", allc, [1, 2, 6], [True, False], 1, 2)]
+        runs = [(1, "full", allc, [1, 2, 6], [True, False], 1, 0, B),
+                (2, "core", [2, 4, 5], [2, 6], [True], 1, 0, B),
+                (3, "core", allc, [1, 2, 6], [True, False], 1, 2, B)]
     else:
-        runs = [(1, "full", allc, [1, 2, 6], [True, False], 1, 0),
-                (2, "core", allc, [1, 2, 6], [True, False], 1, 0),
-                (3, "mini", [2, 4, 5], [2, 6], [False], 1, 0),
-                (3, "full", allc, [1, 2, 6], [True, False], 1, 8)]
+        runs = [(1, "full", allc, [1, 2, 6], [True, False], 1, 0, B),
+                (2, "core", allc, [1, 2, 6], [True, False], 1, 0, B),
+                (3, "mini", [2, 4, 5], [2, 6], [False], 1, 0, B),
+                (3, "full", allc, [1, 2, 6], [True, False], 1, 8, B)]
     t_last = [time.time()]
 
     def phase(name):
@@ -121,7 +123,7 @@ def check(ctx):
         try:
             cases = ctx.path("cases%d.ndjson" % k)
             if spec[6]:
-                res = tlc(ctx, SPECDIR, "MC_UpdateScripts.tla", "MC_gen%d.cfg" % k, cfg_text=gen_cfg(*spec[:5]), emit_to=cases,
+                res = tlc(ctx, SPECDIR, "MC_UpdateScripts.tla", "MC_gen%d.cfg" % k, cfg_text=gen_cfg(*spec[:5], sub=spec[7]), emit_to=cases,
                           workers=SIM_WORKERS[ctx.tier], timeout=3000, files=[TXTAR_TLA], name="sim%d" % k, simulate="num=%d" % spec[6],
                           depth=spec[0] + 1, expect_violation=True)
                 if res.violation or res.emits < 2:
@@ -133,7 +135,7 @@ def check(ctx):
                         if line.startswith("The number of states generated:"):
                             res.generated = int(line.split(":")[1])
             else:
-                res = tlc(ctx, SPECDIR, "MC_UpdateScripts.tla", "MC_gen%d.cfg" % k, cfg_text=gen_cfg(*spec[:5]), emit_to=cases,
+                res = tlc(ctx, SPECDIR, "MC_UpdateScripts.tla", "MC_gen%d.cfg" % k, cfg_text=gen_cfg(*spec[:5], sub=spec[7]), emit_to=cases,
                           workers=max(4, NCPU // (1 if spec[0] > 1 else 4)), timeout=3000, files=[TXTAR_TLA], name="gen%d" % k)
                 require_tlc_ok(res, "laws of C16 on the specification (MC_UpdateScripts %s)" % (spec[:5],))
                 if res.emits != res.distinct + 1:           # one case per state + the content table
